@@ -79,7 +79,7 @@ func (cx *c02Ctx) tryAltered(x []byte, class string, keys bridge.KeySet, recvI b
 			return fmt.Errorf("%s: DecodeDecrypt panics on an altered message (%d octets, header pre-parsed=%v): %v", class, len(x), withHdr, err)
 		}
 		if errors.Is(err, errNeitherNor) {
-			return fmt.Errorf("%s: an altered message (%d octets, header pre-parsed=%v) is answered with neither an error nor a message", class, len(x), withHdr)
+			return fmt.Errorf("%s: altered message (%d octets, header pre-parsed=%v): %v", class, len(x), withHdr, err)
 		}
 		if err != nil && len(err.Error()) >= 12 && err.Error()[:12] == "ParseHeader:" {
 			continue // header cannot be pre-parsed: this mode does not exist for x
